@@ -84,6 +84,11 @@ THEOREM ShareNeverMore ==
   BY <1>3
 <1> QED BY <1>1, <1>2, <1>4, <1>5
 
+LEMMA LtLeTrans ==
+    ASSUME NEW a \in Int, NEW b \in Int, NEW c \in Int, a < b, b <= c
+    PROVE  a < c
+  OBVIOUS
+
 LEMMA MulMono ==
     ASSUME NEW A \in Nat, NEW B \in Nat, NEW C \in Nat, NEW E \in Nat, A >= B, C >= E
     PROVE  A * C >= B * E
@@ -386,4 +391,124 @@ THEOREM CommissionIdentity ==
 <1>4. k * D = D * k /\ (k + 1) * D = D * (k + 1)
   OBVIOUS
 <1> QED BY <1>1, <1>3, <1>4
+
+(***************************************************************************)
+(* C15: if the slippage guard lets a provision through on one side         *)
+(*   A = floor(floor(d0*D/d1) * w / D) <= B = floor(r0*D/r1),  w = D - t   *)
+(* then (d0/d1)(1-t) < r0/r1 + 2/D, i.e. d0*w*r1 < r0*d1*D + 2*d1*r1.      *)
+(***************************************************************************)
+THEOREM SlippageGuardSound ==
+    ASSUME NEW d0 \in Nat, NEW d1 \in Nat, NEW r0 \in Nat, NEW r1 \in Nat, NEW D \in Nat, NEW w \in Nat,
+           d1 > 0, r1 > 0, D > 0, w <= D,
+           NEW q \in Nat, q = (d0 * D) \div d1,
+           NEW A \in Nat, A = (q * w) \div D,
+           NEW B \in Nat, B = (r0 * D) \div r1,
+           A <= B
+    PROVE  d0 * w * r1 < r0 * d1 * D + 2 * (d1 * r1)
+<1>a. d0 * D \in Nat /\ q * w \in Nat /\ r0 * D \in Nat
+  OBVIOUS
+<1>1. d0 * D < d1 * (q + 1)
+  <2>1. d0 * D < d1 * (((d0 * D) \div d1) + 1)
+    BY <1>a, DivBounds
+  <2> QED BY <2>1
+<1>2. q * w < D * (A + 1)
+  <2>1. q * w < D * (((q * w) \div D) + 1)
+    BY <1>a, DivBounds
+  <2> QED BY <2>1
+<1>3. r1 * B <= r0 * D
+  <2>1. r1 * ((r0 * D) \div r1) <= r0 * D
+    BY <1>a, DivBounds
+  <2> QED BY <2>1
+\* chain, everything multiplied out over the common factor d1*r1*D
+<1>5. CASE w = 0
+  <2>1. d0 * w * r1 = 0
+    BY <1>5
+  <2>2. d1 * r1 >= 1
+    OBVIOUS
+  <2> QED BY <2>1, <2>2
+<1>6. CASE w > 0
+  <2>1. (d0 * D) * w < (d1 * (q + 1)) * w
+    <3>1. d0 * D + 1 <= d1 * (q + 1)
+      BY <1>1
+    <3>2. d0 * D + 1 \in Nat /\ d1 * (q + 1) \in Nat /\ w \in Nat /\ d1 * (q + 1) >= d0 * D + 1 /\ w >= w
+      BY <3>1
+    <3>3. (d1 * (q + 1)) * w >= (d0 * D + 1) * w
+      BY <3>2, MulMono
+    <3>4. (d0 * D + 1) * w = (d0 * D) * w + w
+      OBVIOUS
+    <3> QED BY <3>3, <3>4, <1>6
+  <2>2. (d1 * (q + 1)) * w = d1 * (q * w) + d1 * w
+    OBVIOUS
+  <2>3. q * w + 1 <= D * (A + 1)
+    BY <1>2
+  <2>4. d1 * (q * w + 1) <= d1 * (D * (A + 1))
+    BY <2>3
+  <2>5. d1 * (q * w + 1) = d1 * (q * w) + d1
+    OBVIOUS
+  <2>6. d1 * (D * (A + 1)) = (d1 * D) * A + d1 * D
+    OBVIOUS
+  <2>7. (d1 * D) * A <= (d1 * D) * B
+    OBVIOUS
+  \* so far: d0*D*w < (d1*D)*B + d1*D - d1 + d1*w
+  <2>8. (d0 * D) * w < (d1 * D) * B + d1 * D + d1 * w
+    BY <2>1, <2>2, <2>4, <2>5, <2>6, <2>7
+  \* multiply by r1 and use r1*B <= r0*D
+  <2>9. ((d0 * D) * w) * r1 < ((d1 * D) * B + d1 * D + d1 * w) * r1
+    <3>1. (d0 * D) * w + 1 <= (d1 * D) * B + d1 * D + d1 * w
+      BY <2>8
+    <3>2. ((d0 * D) * w + 1) * r1 <= ((d1 * D) * B + d1 * D + d1 * w) * r1
+      <4>1. (d1 * D) * B + d1 * D + d1 * w \in Nat /\ (d0 * D) * w + 1 \in Nat /\ r1 \in Nat
+            /\ (d1 * D) * B + d1 * D + d1 * w >= (d0 * D) * w + 1 /\ r1 >= r1
+        BY <3>1
+      <4>2. ((d1 * D) * B + d1 * D + d1 * w) * r1 >= ((d0 * D) * w + 1) * r1
+        BY <4>1, MulMono
+      <4> QED BY <4>2
+    <3>3. ((d0 * D) * w + 1) * r1 = ((d0 * D) * w) * r1 + r1
+      OBVIOUS
+    <3> QED BY <3>2, <3>3
+  <2>10. ((d1 * D) * B + d1 * D + d1 * w) * r1 = (d1 * D) * (r1 * B) + (d1 * D) * r1 + (d1 * w) * r1
+    OBVIOUS
+  <2>11. (d1 * D) * (r1 * B) <= (d1 * D) * (r0 * D)
+    BY <1>3
+  <2>12. (d1 * w) * r1 <= (d1 * D) * r1
+    <3>1. d1 * w <= d1 * D
+      OBVIOUS
+    <3> QED BY <3>1
+  <2>13. ((d0 * D) * w) * r1 < (d1 * D) * (r0 * D) + 2 * ((d1 * D) * r1)
+    <3> DEFINE T == ((d0 * D) * w) * r1
+               X == (d1 * D) * (r1 * B) + (d1 * D) * r1 + (d1 * w) * r1
+               Y == (d1 * D) * (r0 * D) + (d1 * D) * r1 + (d1 * D) * r1
+               Z == (d1 * D) * (r0 * D) + 2 * ((d1 * D) * r1)
+    <3>1. T < X
+      BY <2>9, <2>10
+    <3>2. X <= Y
+      BY <2>11, <2>12
+    <3>3. Y = Z
+      OBVIOUS
+    <3>4. T \in Nat /\ X \in Nat /\ Y \in Nat /\ Z \in Nat
+      OBVIOUS
+    <3>5. T < Y
+      <4>1. T \in Int /\ X \in Int /\ Y \in Int
+        BY <3>4
+      <4> HIDE DEF T, X, Y
+      <4> QED BY <3>1, <3>2, <4>1, LtLeTrans
+    <3>6. T < Z
+      BY <3>5, <3>3
+    <3> QED BY <3>6
+  \* divide the common factor D out
+  <2>14. ((d0 * D) * w) * r1 = D * (d0 * w * r1)
+    OBVIOUS
+  <2>15. (d1 * D) * (r0 * D) + 2 * ((d1 * D) * r1) = D * (r0 * d1 * D + 2 * (d1 * r1))
+    OBVIOUS
+  <2>16. D * (d0 * w * r1) < D * (r0 * d1 * D + 2 * (d1 * r1))
+    BY <2>13, <2>14, <2>15
+  <2>17. d0 * w * r1 \in Nat /\ r0 * d1 * D + 2 * (d1 * r1) \in Nat
+    OBVIOUS
+  <2> QED
+    <3>1. SUFFICES ASSUME d0 * w * r1 >= r0 * d1 * D + 2 * (d1 * r1) PROVE FALSE
+      BY <2>17
+    <3>2. D * (d0 * w * r1) >= D * (r0 * d1 * D + 2 * (d1 * r1))
+      BY <3>1, <2>17
+    <3> QED BY <3>2, <2>16
+<1> QED BY <1>5, <1>6
 =============================================================================
